@@ -43,6 +43,7 @@ type RunConfig struct {
 	NilTx         bool    `json:"nil_tx"`
 	PAsync        float64 `json:"p_async"`
 	PReFF         float64 `json:"p_reff"`
+	BadgerCache   int     `json:"badger_cache"`
 	Variants      int     `json:"variants"`
 	TxStyle       string  `json:"tx_style"` // "unique" | "mixed"
 	FairSuffix    bool    `json:"fair_suffix"`
